@@ -46,7 +46,7 @@ SHARD_TIMEOUT = {'quick': 600, 'thorough': 2400}
 EXHAUSTIVE = {'quick': True, 'thorough': True}
 MIN_HITS = {
     'quick': {
-        'hit:held-batches': 3000, 'hit:fresh-interpreter-stream': 100, 'shuffle:long-input': 10, 'fd-form:derived-subset': 300, 'mon:concat-pcd': 3500, 'mon:concat-pfd': 3500, 'mon:full-pcd': 15000, 'mon:full-pfd': 15000, 'mon:bucket-pcd': 7000,
+        'hit:held-batches': 3000, 'hit:examples-changed-after-construction': 800, 'repeat:sized-one-shot': 8, 'repeat:sized-changing-iterable': 8, 'hit:fresh-interpreter-stream': 100, 'shuffle:long-input': 10, 'fd-form:derived-subset': 300, 'mon:concat-pcd': 3500, 'mon:concat-pfd': 3500, 'mon:full-pcd': 15000, 'mon:full-pfd': 15000, 'mon:bucket-pcd': 7000,
         'mon:bucket-pfd': 7000, 'mon:repeat-padded': 6000, 'mon:reject': 400, 'reject:padded-preprocessor': 60,
         'reject:padded-features': 60, 'reject:bsb-preprocessor': 50, 'reject:bsb-features': 50,
         'mon:multiset-shuffle': 2500, 'mon:repro-shuffle': 2500, 'mon:order-shuffle': 400, 'mon:repeat-iter': 300,
@@ -386,6 +386,30 @@ def padded_point(ctx, fedjax, cd, fd_mod, rng, b, k, sizes):
                 'padded batches of one stream, still held by the consumer, changed when another stream of the same layout was '
                 'batched', {**wit, 'first_changed': bad})
 
+  # ---- datasets whose example dict is filled / grown / shrunk by the caller AFTER ClientDataset(...) was constructed (a
+  #      ClientDataset keeps the caller's mapping by reference and exposes it as raw_examples): what is batched is what the
+  #      datasets hold when the stream is consumed
+  if m and total > 0 and (len(sizes) + b + total) % 3 == 0:
+    how = ['grown', 'shrunk', 'replaced'][(b + total) % 3]
+    live = []
+    for raw in raws:
+      n_ = len(next(iter(raw.values())))
+      n0 = {'grown': n_ // 2, 'shrunk': n_, 'replaced': n_}[how]
+      live.append({f: (np.concatenate([v, v[:1]]) if how == 'shrunk' and n_ else np.zeros_like(v) if how == 'replaced' else v[:n0]).copy() for f, v in raw.items()})
+    dsets3 = [cd.ClientDataset(lv, pre) if (fns or shared != 2) else cd.ClientDataset(lv) for lv in live]
+    lens0 = [len(d_) for d_ in dsets3]
+    for lv, raw in zip(live, raws):
+      for f, v in raw.items():
+        lv[f] = v.copy()
+    r3 = ctx.call('padded_batch_client_datasets', lambda: list(hp_call(fedjax.padded_batch_client_datasets, dsets3)),
+                  witness={**wit, 'examples_after_construction': how})
+    if r3.ok:
+      ctx.count('hit:examples-changed-after-construction')
+      w3 = {**wit, 'examples_after_construction': how, 'len_at_construction': lens0}
+      ctx.check([len(d_) for d_ in dsets3] == sizes, 'live/len-stale-after-caller-changed-examples',
+                'len(ClientDataset) is not the number of examples its raw_examples hold now', w3)
+      judge_padded(ctx, 'pcd-live', r3.value, ref, total, b, k, w3)
+
   if m:
     ids = gen.hostile_client_ids(rng, m)
     # (InMemoryFederatedData itself insists on one key ORDER for all clients -- its own input validation, not this property's
@@ -480,7 +504,8 @@ def reject_point(ctx, fedjax, cd, rng):
 
 
 # ----------------------------------------------------------------------------- buffered_shuffle / RepeatableIterator
-BASE_KINDS = ['list', 'tuple', 'dict', 'str', 'bytes', 'generator', 'iterator', 'range', 'custom-iterable', 'changing-iterable']
+BASE_KINDS = ['list', 'tuple', 'dict', 'str', 'bytes', 'generator', 'iterator', 'range', 'custom-iterable', 'changing-iterable',
+              'sized-changing-iterable', 'sized-one-shot']
 
 
 class _Iterable:
@@ -508,6 +533,27 @@ class _ChangingIterable:
     return iter([x + 1000 * self._calls for x in reversed(self._items)] + [-self._calls])
 
 
+class _SizedChangingIterable(_ChangingIterable):
+  """The same, but it also has a length (a data loader that reshuffles on every epoch)."""
+
+  def __len__(self):
+    return len(self._items)
+
+
+class _SizedOneShot:
+  """A progress-bar style wrapper: knows its total, but iterates an underlying one-pass stream."""
+
+  def __init__(self, items):
+    self._n = len(items)
+    self._stream = (x for x in list(items))
+
+  def __len__(self):
+    return self._n
+
+  def __iter__(self):
+    return self._stream
+
+
 def make_base(kind, n):
   """Returns (factory of a fresh base iterable, expected item list); items are pairwise distinct."""
   if kind == 'str':
@@ -533,6 +579,10 @@ def make_base(kind, n):
     return (lambda: _Iterable(items)), items
   if kind == 'changing-iterable':
     return (lambda: _ChangingIterable(items)), items
+  if kind == 'sized-changing-iterable':
+    return (lambda: _SizedChangingIterable(items)), items
+  if kind == 'sized-one-shot':
+    return (lambda: _SizedOneShot(items)), items
   raise AssertionError(kind)
 
 
@@ -992,3 +1042,5 @@ LEVEL_NOTE = ('Trusts NumPy concatenation/boolean indexing and the harness re-im
               '"non-trivial order" monitors have a false-alarm chance below 1e-14 per case.')
 
 TECHNIQUE += '; seeded streams replayed in a fresh interpreter under another PYTHONHASHSEED; derived subset views; shuffles of 4e3-1.6e4 items'
+TECHNIQUE += '; datasets whose example mapping is grown / shrunk / replaced after construction; sized one-shot and sized changing bases for RepeatableIterator'
+RULE += ' Wave-8 addition: a third of the padded points batch datasets whose raw_examples mapping the caller filled, shrank or replaced after ClientDataset(...) was constructed (the stream must hold the current examples; len() must be current); RepeatableIterator / buffered_shuffle bases include a sized wrapper over a one-pass stream and a sized iterable that changes on every iter().'
